@@ -98,7 +98,7 @@ CLAIMS.update({
             'patched clock in 10 zones, compared in Coq, plus a zoneinfo oracle. No axioms.', '6/C19'),
     'C20': ('accept_sound_by_sweep: accepted-without-policy => shown exactly once on every day of the year, for every table '
             'passing wf_dst, lifted from an executable interval sweep that is evaluated by vm_compute on the tables of the '
-            'run (16 zones x 2020-2037 quick; 599 zones thorough); both_given_verbatim; state machine of the cached setup',
+            'run (16 zones x 2020-2037 quick; every zone of the tzdata in the sandbox (about 600) thorough); both_given_verbatim; state machine of the cached setup',
             'Model coq/theories/Dst.v (_iter_date, find_time, _setup, check_dst_handling) over Time.v tables; correspondence '
             'per (zone, year) in fresh interpreters + zoneinfo scan of every day. The sweep lemmas are generated into scratch '
             'per run (finite domain swept completely and lifted by sweep_lift). No axioms.', '6/C20'),
@@ -175,7 +175,7 @@ CLAIMS['C16'] = ('loop/call skeleton regenerated from /repo equals the expected 
 
 # second tie: statement-level translators regenerate Gallina from the sources on every run; Gen*Eq.v proves it equal to the model
 TIES = {
-    'C01': 'gen_sched.py (async_scheduler.py: gen_agrees), gen_jobs.py (job classes: gen_agrees2, gen2_wake_is_model)',
+    'C01': 'gen_sched.py (async_scheduler.py: gen_agrees), gen_jobs.py + gen_builder.py through the generated history machine (GenSystem.gen_run_is_model and its corollaries, all stated in props/C01.v)',
     'C02': 'gen_sched.py, gen_jobs.py, gen_builder.py (builder/jobs.py, job store, controls: gen_add_job_is_create, store first)',
     'C03': 'through C01 / C02 (scheduler, jobs, builder) and C05 (producers); disturbed_job_exact for a job among others',
     'C04': 'gen_prod.py (gen_get_next_is_model: every generated producer = Producers.get_next)',
@@ -191,7 +191,7 @@ TIES = {
     'C14': 'gen_prod.py (offset / jitter)',
     'C15': 'gen_trig.py (builder calls and copy over a heap of objects: gen_run_is_model, copy_prod_spec)',
     'C16': 'gen_prod.py + gen_facts.py (loop bounds, sun_tries)',
-    'C17': 'gen_parse.py (argument parser; name tables computed in Coq from the source literals); the filter allow methods are tied in props/C05.v / GenProdEq.v',
+    'C17': 'gen_parse.py (argument parser; name tables computed in Coq from the source literals); the filter allow methods are tied in GenProdEq.v (gen_*_allow_eq, reached through gen_get_next_is_model in the producer property files)',
     'C18': 'gen_sun.py (gen_get_next_sun_eq, gen_get_next_is_model_sun)',
     'C19': 'gen_instant.py (get_instant, get_time, get_pos_timedelta_secs)',
     'C20': 'gen_dst.py (dst_param.py for any table; DstFacts restated for the generated code)',
@@ -237,7 +237,7 @@ m = {
                                    'real code under virtual time'}],
     'checks': checks,
     'not_applicable': na,
-    'notes': 'Fixes of genuine defects are separate "fix:" commits in /repo; see known_findings.json and DESIGN.md section 7.',
+    'notes': 'Fixes of genuine defects are separate "fix:" commits in /repo; see known_findings.json and DESIGN.md section 11.3 (section 7 is the list made while reading, before the build).',
 }
 (V / 'MANIFEST.json').write_text(json.dumps(m, indent=1) + '\n')
 print(len(checks), 'checks,', len(na), 'not claimed')
